@@ -90,7 +90,24 @@ def kind_variants(scn):
 
 
 def replay(scn):
-    return replay_take(scn, kind_variants(scn), signature)
+    i = scn["in"]
+    nd = len(i["a"]["dims"])
+    extra = []
+    if i["mode"] == "label" and nd >= 1 and all(h % 2 == 0 for l in i["a"]["labs"] for h in l):
+        # index values of another kind than the axis: an integer axis read with float labels (the absent labels of the menus
+        # are then fractional: 1.5 on the axis 1, 2, 3 - never to be truncated to a neighbour), a float axis read with integers
+        extra.append(dict(kinds=["i"] * nd, idx_kinds=["f"] * nd, mixed=True))
+        if all(_even_idx(ix) for ix in i["idxs"]):
+            extra.append(dict(kinds=["f"] * nd, idx_kinds=["i"] * nd, mixed=True))
+    return replay_take(scn, kind_variants(scn), signature, extra_variants=extra)
+
+
+def _even_idx(ix):
+    if ix["k"] == "sc":
+        return ix["v"] % 2 == 0
+    if ix["k"] == "li":
+        return all(v % 2 == 0 for v in ix["l"])
+    return True
 
 
 def replay_take(scn, variants, signature, extra_variants=()):
